@@ -185,6 +185,9 @@ StepInSucc == [][s' \in Succ(s)]_s
 \* (small configs only) the outcome of every behaviour is in the recursive outcome set
 DoneInOutcomes == s.phase = "done" => Out(s) \in Outcomes(s.init0, s.des0)
 
+\* managed names are interchangeable (used as SYMMETRY with model values in the thorough config)
+SymManaged == Permutations(Managed)
+
 \* vacuity monitors: violated on purpose by SyncDir_vac*.cfg
 NoFailClosedRun == ~(s.phase = "done" /\ s.erase /\ s.removed # {})
 NoRemovalFailure == ~(s.phase = "done" /\ ~s.erase /\ s.err)
